@@ -10,6 +10,7 @@ import (
 	"os"
 	"strconv"
 	"strings"
+	"sync"
 
 	"github.com/glowlabs-org/gca-backend/glow"
 	"github.com/glowlabs-org/gca-backend/server"
@@ -70,6 +71,7 @@ type srvGen struct {
 	keys     []Key              // device key pool
 	sent     [][]byte           // datagrams sent so far (for replays)
 	regDone  bool
+	markerSeq int
 	authsSeen []glow.EquipmentAuthorization
 }
 
@@ -325,6 +327,37 @@ func (g *srvGen) opDgram() {
 			d[i/8] ^= 1 << uint(i%8)
 		}
 	}
+	// a share of the datagrams travels through the real UDP socket, with a marker report behind it
+	if len(g.devs) > 0 && r.Chance(12) && len(d) <= 1400 {
+		dv := g.devs[r.Intn(len(g.devs))]
+		now := glow.CurrentTimeslot()
+		off := g.off()
+		g.markerSeq++
+		ts := now
+		if ts < off {
+			ts = off
+		}
+		// a fresh slot near now for the marker: walk down from now until an unused one is found
+		snap := g.s.E.S.VerifSnapshot()
+		reps := snap.Reports[dv.id]
+		found := false
+		for k := uint32(0); k < 400 && ts >= off+k && ts-k+432 >= now; k++ {
+			if i := ts - k - off; i < 4032 && reps[i].PowerOutput == 0 {
+				ts = ts - k
+				found = true
+				break
+			}
+		}
+		if found {
+			m := MkReport(dv.id, ts, 2+uint64(g.markerSeq), dv.key.Priv).Serialize()
+			g.s.DgramUDP(d, m)
+			g.sent = append(g.sent, m)
+			if len(d) >= 80 {
+				g.sent = append(g.sent, d)
+			}
+			return
+		}
+	}
 	g.s.Dgram(d)
 	if len(d) >= 80 {
 		g.sent = append(g.sent, d)
@@ -414,7 +447,8 @@ func (g *srvGen) opMigrate() {
 	}
 	em := server.EquipmentMigration{Equipment: eq, NewGCA: newGCA.Pub, NewShortID: uint32(r.Intn(100))}
 	for i := 0; i < r.Intn(3); i++ {
-		as := server.AuthorizedServer{PublicKey: detKey(g.seed, 600+i).Pub, Location: "127.0.0.1", HttpPort: 1, TcpPort: 2, UdpPort: 3, Banned: r.Chance(20)}
+		loc := []string{"127.0.0.1", "", strings.Repeat("c", 255), strings.Repeat("d", 256), strings.Repeat("e", 300), "example.org"}[r.pick([]int{50, 8, 12, 12, 8, 10})]
+		as := server.AuthorizedServer{PublicKey: detKey(g.seed, 600+i).Pub, Location: loc, HttpPort: 1, TcpPort: 2, UdpPort: 3, Banned: r.Chance(20)}
 		signer := newGCA.Priv
 		if r.Chance(15) {
 			signer = g.s.E.GCA.Priv
@@ -455,6 +489,67 @@ func (g *srvGen) opRegister() {
 	}
 }
 
+// opRegisterRace submits a batch of registrations concurrently (several
+// candidate keys, valid and invalid signers). Registration is one critical
+// section, so the outcome must equal some sequential order: it is written to
+// the trace as "the accepted one first, then the others".
+func (g *srvGen) opRegisterRace() {
+	r := g.r
+	type cand struct {
+		gr  server.GCARegistration
+		k   Key
+		err error
+	}
+	var cs []*cand
+	n := 3 + r.Intn(10)
+	for i := 0; i < n; i++ {
+		k := []Key{g.s.E.GCA, detKey(g.seed, 1002), detKey(g.seed, 1003)}[r.Intn(3)]
+		gr := server.GCARegistration{GCAKey: k.Pub}
+		signer := g.s.E.Temp.Priv
+		if r.Chance(25) {
+			signer = k.Priv
+		}
+		gr.Signature = glow.Sign(gr.SigningBytes(), signer)
+		cs = append(cs, &cand{gr: gr, k: k})
+		g.s.Keys[k.Pub] = true
+		g.s.oracle(g.s.E.Temp.Pub, gr.SigningBytes(), gr.Signature)
+	}
+	var wg sync.WaitGroup
+	start := make(chan struct{})
+	for _, c := range cs {
+		wg.Add(1)
+		go func(c *cand) {
+			defer wg.Done()
+			<-start
+			c.err = g.s.E.S.VerifRegisterGCA(c.gr)
+		}(c)
+	}
+	close(start)
+	wg.Wait()
+	g.s.T.Count("register-race")
+	// linearisation: accepted ones first
+	emit := func(c *cand) {
+		obs := "refused"
+		if c.err == nil {
+			obs = "ok"
+			g.regDone = true
+			g.s.E.GCA = c.k
+		}
+		g.s.T.Line("srv.register key=%s sig=%s => %s", hx(c.gr.GCAKey[:]), hx(c.gr.Signature[:]), obs)
+	}
+	for _, c := range cs {
+		if c.err == nil {
+			emit(c)
+		}
+	}
+	for _, c := range cs {
+		if c.err != nil {
+			emit(c)
+		}
+	}
+	g.s.Snap()
+}
+
 // weights per focus: dgram, authorize, clock, tick, restart, stats, sync, authserver, migrate, register, impact, rotate
 var focusWeights = map[string][]int{
 	"C01": {70, 6, 8, 2, 1, 3, 3, 1, 1, 1, 1, 1},
@@ -464,6 +559,7 @@ var focusWeights = map[string][]int{
 	"C06": {20, 45, 4, 1, 8, 4, 6, 1, 1, 2, 1, 1},
 	"C07": {6, 25, 2, 0, 12, 1, 2, 10, 8, 30, 0, 0},
 	"C12": {35, 10, 14, 5, 4, 10, 6, 6, 5, 3, 1, 1},
+	"C17": {5, 8, 2, 0, 5, 1, 8, 36, 30, 5, 0, 0},
 }
 
 func runSrvScenario(focus string, seed uint64, size int, t *Trace) error {
@@ -490,12 +586,14 @@ func runSrvScenario(focus string, seed uint64, size int, t *Trace) error {
 		w = focusWeights["C12"]
 	}
 	ticks := 0
-	if focus != "C07" || r.Chance(50) {
+	if focus == "C07" && r.Chance(40) {
+		g.opRegisterRace()
+	} else if focus != "C07" || r.Chance(50) {
 		// most scenarios register right away
 		g.opRegister()
 	}
 	for i := 0; i < size; i++ {
-		if s.E.S == nil {
+		if s.E.S == nil || s.Lost {
 			break
 		}
 		k := r.pick(w)
@@ -537,8 +635,10 @@ func runSrvScenario(focus string, seed uint64, size int, t *Trace) error {
 			s.Rotate()
 		}
 	}
-	s.Snap()
-	s.Disk()
+	if !s.Lost {
+		s.Snap()
+		s.Disk()
+	}
 	t.DumpStats()
 	return nil
 }
